@@ -238,22 +238,8 @@ theorem planFrom_cons (q : Bool) (env : Env) (i : Nat) (s : SourceCfg) (B : List
 theorem planOne_index (q : Bool) (env : Env) (i : Nat) (s : SourceCfg) (p : Planned) (h : planOne q env i s = .ok (some p)) :
     p.index = i := by
   unfold planOne at h
-  split at h
-  · cases h
-  · split at h
-    · cases h
-    · split at h
-      · cases h
-      · split at h
-        · cases h
-        · split at h
-          · split at h
-            · cases h; rfl
-            · split at h
-              · cases h; rfl
-              · cases h
-          · cases h; rfl
-    · cases h
+  repeat' split at h
+  all_goals first | (cases h; rfl) | cases h
 
 theorem planFrom_index (q : Bool) (env : Env) (i : Nat) (L : List SourceCfg) (P : List Planned) (h : planFrom q env i L = .ok P) :
     ∀ p ∈ P, i ≤ p.index ∧ p.index < i + L.length := by
